@@ -398,7 +398,7 @@ func (fr *Frame) builtin(b *ssa.Builtin, cc *ssa.CallCommon, args []Val, resT ty
 func (c *FnCtx) mapLen(st *State, mt types.Type, m string) string {
 	dn, _, ln, ks, _ := c.mapHeaps(mt)
 	t := c.smt.define("maplen", "Int", ite(eq(m, "0"), "0", sel(c.heapGet(st, ln, c.heapSorts[ln]), m)))
-	c.smt.assume(app(">=", t, "0"), "")
+	c.smt.assume(and(app(">=", t, "0"), app("<=", t, "72057594037927936")), "len of a map is a non-negative int")
 	if !strings.Contains(m, "q.") {
 		// len(m) == 0 exactly when m has no keys
 		dom := sel(c.heapGet(st, dn, c.heapSorts[dn]), m)
@@ -435,7 +435,7 @@ func (fr *Frame) appendBuiltin(args []Val, resT types.Type, st *State, reach str
 	al := c.heapGet(st, "alloc", allocSort)
 	c.smt.assume(and(app(">", nb, "0"), not(sel(al, nb))), "fresh backing array")
 	ncap := c.smt.declareFresh("apcap", "Int")
-	c.smt.assume(and(app(">=", ncap, newLen), app("<=", ncap, "4611686018427387904")), "")
+	c.smt.assume(and(app(">=", ncap, newLen), app("<=", ncap, "72057594037927936")), "")
 	noop := c.smt.define("apnoop", "Bool", eq(n2, "0"))
 	r := c.smt.define("ap", "Slice", ite(noop, s, ite(inPlace,
 		fmt.Sprintf("(mk_slice (sl_base %s) (sl_off %s) %s (sl_cap %s))", s, s, newLen, s),
@@ -815,7 +815,7 @@ func (fr *Frame) appendOne(args []Val, v Val, resT types.Type, st *State) Val {
 	al := c.heapGet(st, "alloc", allocSort)
 	c.smt.assume(and(app(">", nb, "0"), not(sel(al, nb))), "fresh backing array")
 	ncap := c.smt.declareFresh("apcap", "Int")
-	c.smt.assume(and(app(">=", ncap, newLen), app("<=", ncap, "4611686018427387904")), "")
+	c.smt.assume(and(app(">=", ncap, newLen), app("<=", ncap, "72057594037927936")), "")
 	r := c.smt.define("ap", "Slice", ite(inPlace,
 		fmt.Sprintf("(mk_slice (sl_base %s) (sl_off %s) %s (sl_cap %s))", s, s, newLen, s),
 		fmt.Sprintf("(mk_slice %s 0 %s %s)", nb, newLen, ncap)))
